@@ -36,7 +36,17 @@ INVARIANT InvAccepts
 CHECK_DEADLOCK FALSE
 """
 
-RULE_RE = re.compile(r'^#"([^"\\]*)": "([^"\\]*)"$')
+# a commented-out rule line: two double-quoted scalars (escape sequences allowed inside)
+RULE_RE = re.compile(r'^#"((?:[^"\\]|\\.)*)": "((?:[^"\\]|\\.)*)"$')
+
+
+def unescape(body):
+    """the text a double-quoted scalar stands for (the escapes JSON and YAML share), None if malformed"""
+    try:
+        v = json.loads('"%s"' % body.replace('\t', '\\t'))
+        return v if isinstance(v, str) else None
+    except ValueError:
+        return None
 
 WORDS = ['policy', 'the', 'a', 'is', 'allowed', '#', '##', '"quoted"', "'single'", 'key: value', 'colon:', ':', '- item', '-', '?', '|', '>',
          '"x": "@"', '#"x": "@"', '%(user_id)s', '100%', '%s', '{}', '{a: b}', '[1, 2]', '&anchor', '*alias', '!tag', '@', '`', 'é', 'Ж', '中文', '🙂',
@@ -66,7 +76,9 @@ def hostile_text(rng):
 NAME_CH = 'abcdefgXYZ019_:-.*/'
 CHECKS = ['role:admin', 'rule:admin_or_owner', "'lit':%(x.y)s", 'project_id:%(project_id)s or role:reader', '(role:a and not role:b) or rule:c',
           '@', '!', '', 'True:%(flag)s', 'role:admin and system_scope:all', 'user_id:%(target.user.id)s', 'http://x.example/%(k)s',
-          'domain_name:%(name)s', 'role:' + 'r' * 90, ' or '.join('role:r%d' % i for i in range(14))]
+          'domain_name:%(name)s', 'role:' + 'r' * 90, ' or '.join('role:r%d' % i for i in range(14)),
+          # blanks are part of the check string: leading / trailing / doubled / nothing but blanks
+          'role:admin or role:member ', ' role:x', ' ', '   ', 'role:a  and  role:b', '\trole:t', 'role:u\t', 'role:v\x0band\x0crole:w']
 
 
 def make_defaults(rng, n):
@@ -108,8 +120,8 @@ def classify(text):
             lines.append({'c': 'hash', 'name': [], 'check': []})
         elif ln.startswith('#"'):
             m = RULE_RE.match(ln)
-            if m:
-                lines.append({'c': 'rule', 'name': ev.cps(m.group(1)), 'check': ev.cps(m.group(2))})
+            if m and unescape(m.group(1)) is not None and unescape(m.group(2)) is not None:
+                lines.append({'c': 'rule', 'name': ev.cps(unescape(m.group(1))), 'check': ev.cps(unescape(m.group(2)))})
             else:
                 lines.append({'c': 'rulelike', 'name': [], 'check': [], '_raw': ln})
         elif ln.startswith('#'):
